@@ -29,6 +29,15 @@ def run(ctx):
         ctx.tlc("conc/GemmPar.tla", "conc/GemmPar.cfg", subst=dict(NI=ni, NJ=nj, NK=nk, P=p),
                 name="R1 GemmPar %dx%d blocks, %d k-steps, %d tokens" % (ni, nj, nk, p))
 
+    for n, w in ((3, 1), (3, 2), (3, 4)) + (((4, 3), (5, 2)) if th else ()):
+        ctx.tlc("conc/QuadFixed.tla", "conc/QuadFixed.cfg", subst=dict(N=n, W=w), name="R1 QuadFixed n=%d workers=%d" % (n, w))
+    ctx.tlc("conc/Pool.tla", "conc/Pool.cfg", subst=dict(DP="FALSE"), name="R1 Pool discipline (3 goroutines, 2 buffers)")
+    st = ctx.tlc("conc/Pool.tla", "conc/Pool.cfg", subst=dict(DP="TRUE"), name="R1 Pool with a double put (must violate Exclusive)",
+                 expect_fail=True)
+    if st["ok"] or "Exclusive is violated" not in st.get("output_tail", ""):
+        from vlib import Undecided
+        raise Undecided("the Pool model does not distinguish a double put (vacuous model)")
+
     # ---- R3: hook logs of real executions --------------------------------------------------
     mz.r3(ctx, th, b, "default", "C09")
     procs = "1,2,4,16"
